@@ -115,6 +115,10 @@ def cases(tier):
                      c01.prefix_pair_case(OTSVG_PICO, tier), c01.paint_variants_case(OTSVG_PICO, tier), c01.overlay_case(OTSVG_PICO, tier), c01.far_reuse_case(OTSVG_PICO, tier), raw_case(tier), raw_case(tier))
 
 
+def enumerate_cases(tier):
+    yield from c01.css_name_rows(["picosvg"])
+
+
 def shrink(case):
     if case.get("raw"):
         srcs = case["sources"]
